@@ -33,6 +33,21 @@ func mutateCluster(t *rapid.T, a ClusterT, o GenOpts, keepPolicies bool) Cluster
 			p.Labels = genLabels(t, "relabel")
 		case 4: // new address
 			p.IP = fmt.Sprintf("10.20.3.%d", 10+len(b.Pods))
+		case 5: // new address which is a textual prefix of the old one (10.20.0.12 -> 10.20.0.1), if nobody else has it
+			if len(p.IP) < 2 {
+				break
+			}
+			if short := p.IP[:len(p.IP)-1]; !strings.HasSuffix(short, ".") {
+				taken := false
+				for _, q := range append(append([]PodT{}, a.Pods...), b.Pods...) {
+					if q.IP == short {
+						taken = true
+					}
+				}
+				if !taken {
+					p.IP = short
+				}
+			}
 		}
 		b.Pods = append(b.Pods, p)
 	}
